@@ -205,6 +205,8 @@ fn explore(args: &[String]) {
             4 => Strategy::Pct { d: 3 },
             _ => Strategy::Stall { victim: rng.below(4), at: rng.below(120) },
         } };
+        // the known-finding family F1 needs its window held open: the adding thread stalls right after its snapshot
+        let strat = if fam == "kf1" && rng.chance(3, 4) { Strategy::Stall { victim: 1, at: 2 } } else { strat };
         let sname = match &strat {
             Strategy::Random => "random".to_string(),
             Strategy::Pct { d } => format!("pct{}", d),
